@@ -25,7 +25,8 @@ def run_property(pid, args):
     mod = load_prop(pid)
     rules = mod.run(ctx)
     known = load_known()
-    ex = exemptions.EXEMPT
+    ex = dict(exemptions.EXEMPT)
+    ex.update(getattr(mod, 'EXEMPT', {}))     # property-local exemptions: (rule id, construct) -> reason
     violations, knowns, exempted = [], [], []
     for r in rules:
         if r.instances < r.floor:
@@ -99,7 +100,7 @@ def write_evidence(pid, mod, ctx, rules, violations, knowns, exempted, wall, evd
                        nontrivial=len(r.nontrivial), violations=len(r.findings),
                        positive_control=r.selfcheck, infos=r.infos[:10]) for r in rules],
         'known_findings': [f.as_dict() for f in knowns],
-        'exempted': [dict(f.as_dict(), reason=exemptions.EXEMPT[(f.rule, f.construct)]) for f in exempted],
+        'exempted': [dict(f.as_dict(), reason=exemptions.EXEMPT.get((f.rule, f.construct)) or getattr(mod, 'EXEMPT', {}).get((f.rule, f.construct))) for f in exempted],
         'violations': [f.as_dict() for f in violations],
         'source_digest': ctx.digest(),
         'files_consulted': sorted(ctx.consulted),
